@@ -130,6 +130,10 @@ Done(w) ==
     \/ w.phase = "cliclosed"
     \/ (w.phase \in {"srvclosing", "cliexc"} /\ w.out = <<>>)
 
+\* A handler returned Err(e) to run_io_loop: once the connection has reached its final state the
+\* error is not reported any more (the thread just ends), otherwise the thread dies with it.
+Fail(w, e) == IF w.fatal = "" /\ ~w.gone /\ Done(w) THEN Exit(w) ELSE Fatal(w, e)
+
 DropSenders(w, ls) ==
     [w EXCEPT !.lq = [x \in DOMAIN w.lq |-> IF x \in ls THEN [w.lq[x] EXCEPT !.tx = FALSE] ELSE w.lq[x]]]
 
